@@ -103,6 +103,29 @@ def rule_a(F):
         res.append(ok("C05.A", "C05/A/charge-symmetry", fa.loc(la), "alloc charges and dealloc refunds the same expression of the Layout", expr=str(ca)))
     else:
         res.append(bad("C05.A", "C05/A/charge-symmetry", fd.loc(ld), "alloc charges %s but dealloc refunds %s: the counter drifts with every object" % (ca, cd)))
+    # every successful allocation is charged, every release is refunded (or neither, under the same condition)
+    adds = atomic_calls(fa, ("fetch_add",), "allocated")
+    subs = atomic_calls(fd, ("fetch_sub",), "allocated")
+    if adds and subs:
+        cfa, cfd = fa.cfg, fd.cfg
+        ok_blocks = [bi for bi, b in enumerate(fa.blocks) if bi in cfa.reach and any(
+            st["k"] == "assign" and st["place"]["l"] == 0 and not st["place"]["p"] and st["rv"]["k"] == "agg"
+            and st["rv"]["agg"].get("variant") == "Ok" for st in b["stmts"])]
+        if not ok_blocks:
+            raise AnchorMissing("Ok(..) return in CaoLangAllocator::alloc")
+        a_dom = all(any(cfa.dominates(ab, ob) for ab, _t in adds) for ob in ok_blocks)
+        d_dom = all(any(cfd.dominates(sb, rb) for sb, _t in subs) for rb in cfd.return_blocks())
+        key = "C05/A/every-allocation-charged-every-release-refunded"
+        if a_dom and d_dom:
+            res.append(ok("C05.A", key, fa.loc(), "the charge dominates every Ok return of alloc, the refund dominates every return of dealloc"))
+        elif a_dom != d_dom:
+            res.append(bad("C05.A", key, (fa if not a_dom else fd).loc(),
+                           ("alloc can return Ok without charging `allocated` (e.g. an early return for a special layout) while dealloc "
+                            "always refunds: every release of such a block lowers the counter below the bytes really outstanding, the "
+                            "limit is exceeded and the counter underflows after clear") if not a_dom else
+                           "dealloc can return without refunding what alloc always charges: the counter only grows"))
+        else:
+            res.append(undecided("C05.A", key, fa.loc(), "both the charge and the refund are conditional; their conditions are not compared"))
     # who may touch the counters
     for field in ("allocated", "next_gc", "limit"):
         writers = set()
@@ -592,7 +615,7 @@ def rule_c(F):
 
 
 RULES = [
-    Rule("C05.A", rule_a, 4, "charge symmetry and who-may-write of the allocator counters"),
+    Rule("C05.A", rule_a, 5, "charge symmetry and who-may-write of the allocator counters"),
     Rule("C05.F", rule_f, 1, "a failed allocation refunds its charge"),
     Rule("C05.G", rule_g, 2, "collect before refusing; threshold from post-collection usage"),
     Rule("C05.O", rule_o, 6, "object cells are owned or released on every exit of init_*"),
